@@ -96,9 +96,11 @@ def run(pid, tier, seed, replay=None):
 
     # ---- spec -> impl: behaviours from TLC
     with_sn = pid in ("C01", "C03", "C04", "C07", "C08")
-    gen, by = semlib.enumerate_inputs(sel, work, tier, seminaive=with_sn)
+    gen, by = semlib.enumerate_inputs(sel, work, tier, seminaive=with_sn,
+                                      cfg="SemGen_desugar.cfg" if (pid in ("C07", "C08") and tier == "quick") else None)
     out.add_tlc(gen, "SemGen (all input databases within the bound; theorems of the semantics" +
-                (" and SemiNaive = LeastModel" if gen.seminaive_checked else "") + " on each)")
+                (" and SemiNaive = LeastModel" if gen.seminaive_checked else "") +
+                (" and LeastModel(Core(P)) = LeastModel(P) (AscentDesugar.tla)" if pid in ("C07", "C08") or tier == "thorough" else "") + " on each)")
     if gen.seminaive_checked:
         out.extra["seminaive_negative_control"] = semlib.seminaive_negative_control(work)
     cases, meta = [], {}
